@@ -534,13 +534,63 @@ func checkStyleCacheWrites(c *Ctx, p *Prog, rule string) {
 					continue
 				}
 			}
+			comparedWithCache := func(blk *ssa.BasicBlock, v ssa.Value) bool {
+				for _, g := range rawGuardsAt(blk) {
+					bo, isBO := g.Cond.(*ssa.BinOp)
+					if !isBO || !(bo.Op == token.NEQ && g.Positive || bo.Op == token.EQL && !g.Positive) {
+						continue
+					}
+					for _, pair := range [][2]ssa.Value{{bo.X, bo.Y}, {bo.Y, bo.X}} {
+						if sameValue(derefCell(pair[0]), v) {
+							if u, ok := derefCell(pair[1]).(*ssa.UnOp); ok {
+								if ref, _, okR := fieldAddrRef(u.X); okR && ref.Name == "curstyle" {
+									return true
+								}
+							}
+						}
+					}
+				}
+				return false
+			}
 			if fn.Name() != "drawCell" {
+				// a helper of the painter that sends the whole style (`t.sendStyle(style)`): used by
+				// drawCell only, storing its own parameter, and called behind `style != t.curstyle` with
+				// the compared style as the argument
+				okHelper := false
+				if prm, isP := v.(*ssa.Parameter); isP && calledOnlyFrom(p, topFunc(fn), map[string]bool{"drawCell": true}, 0) {
+					if dc := p.Fn("tcell:(*tScreen).drawCell"); dc != nil {
+						idx := -1
+						for i, q := range fn.Params {
+							if q == prm {
+								idx = i
+							}
+						}
+						nSites, all := 0, true
+						for _, f := range withClosures(dc) {
+							eachInstr(f, func(in ssa.Instruction) {
+								cc := callCommon(in)
+								if cc == nil || cc.StaticCallee() != fn || idx < 0 || idx >= len(cc.Args) {
+									return
+								}
+								nSites++
+								if !comparedWithCache(in.Block(), derefCell(cc.Args[idx])) {
+									all = false
+								}
+							})
+						}
+						okHelper = nSites > 0 && all
+					}
+				}
+				if okHelper {
+					c.OK(rule, key+"=emitted-style", p.pos(st.Pos()), "stored by the painter's style helper, called behind `style != t.curstyle` with the style just emitted")
+					continue
+				}
 				c.Fail(rule, key, p.pos(st.Pos()), "the style cache is set to "+valName(v)+" outside the painter's emission: the terminal was not told all of that style")
 				continue
 			}
 			// in drawCell: under the `style != t.curstyle` edge, and the stored value is the compared one
-			okGuard := false
-			for _, g := range rawGuardsAt(st.Block()) {
+			okGuard := comparedWithCache(st.Block(), v)
+			for _, g := range rawGuardsAt(st.Block())[:0] {
 				bo, isBO := g.Cond.(*ssa.BinOp)
 				if !isBO || !(bo.Op == token.NEQ && g.Positive || bo.Op == token.EQL && !g.Positive) {
 					continue
